@@ -145,27 +145,24 @@ impl std::fmt::Display for ParseErrorDisplayPretty<'_> {
                 node
             }
         };
-        if node.byte_range().is_empty() {
-            writeln!(f, "")?;
-        } else {
-            let start_column = node.start_position().column;
-            let end_column = node.start_position().column
-                + self.source[node.byte_range()]
-                    .chars()
-                    .take_while(|c| *c != '\n')
-                    .count();
-            write!(
-                f,
-                "{}",
-                Excerpt::from_source(
-                    self.path,
-                    self.source,
-                    node.start_position().row,
-                    start_column..end_column,
-                    0,
-                ),
-            )?;
-        }
+        // zero-width (missing) nodes get an excerpt as well, with an empty underline
+        let start_column = node.start_position().column;
+        let end_column = node.start_position().column
+            + self.source[node.byte_range()]
+                .chars()
+                .take_while(|c| *c != '\n')
+                .count();
+        write!(
+            f,
+            "{}",
+            Excerpt::from_source(
+                self.path,
+                self.source,
+                node.start_position().row,
+                start_column..end_column,
+                0,
+            ),
+        )?;
         Ok(())
     }
 }
